@@ -58,7 +58,11 @@ def _value_range_assumption(it: Interp, r: PathResult, lo: Aff, hi: Aff, atoms: 
         rv = summ.iter_value
         if rv.__class__.__name__ != "RangeVal":
             continue
-        if not (rv.start == lo and rv.stop == hi + ONE and rv.step == ONE):
+        # the scanned range lies inside [lo, hi] (the whole domain, or part of it: which values are candidates is the heuristic's business,
+        # that the chosen one is a value of the domain is the partition's)
+        f0 = r.state.facts
+        if not (rv.step == ONE and isinstance(rv.start, Aff) and isinstance(rv.stop, Aff)
+                and f0.decide(cmp_cond(">=", rv.start, lo)) is True and f0.decide(cmp_cond("<=", rv.stop, hi + ONE)) is True):
             continue
         for a in atoms:
             if isinstance(a, tuple) and a[0] == "lv" and a[2] == summ.loop_id:
@@ -69,11 +73,18 @@ def _value_range_assumption(it: Interp, r: PathResult, lo: Aff, hi: Aff, atoms: 
                     sv = it.scalar(bp.state, v) if v is not None else None
                     if sv is None or not (sv == summ.index or sv == Aff.atom(a)):
                         only_index = False
-                if only_index:
+                # ... and it starts inside [lo, hi] too: a 'nothing chosen yet' sentinel outside the domain survives a scan in which no
+                # value qualifies (e.g. no positive cost) and is then branched on
+                pre = summ.pre_env.get(name)
+                pv = it.scalar(r.state, pre) if pre is not None else None
+                starts_inside = isinstance(pv, Aff) and r.state.facts.decide(cmp_cond(">=", pv, lo)) is True and r.state.facts.decide(cmp_cond("<=", pv, hi)) is True
+                if only_index and starts_inside:
                     av = Aff.atom(a)
                     facts.add(cmp_cond(">=", av, lo))
                     facts.add(cmp_cond("<=", av, hi))
-                    notes.append(f"{name} is only assigned the index of range(lo, hi+1) in its selection loop")
+                    notes.append(f"{name} starts inside the domain and is only assigned the index of a range inside [lo, hi] in its selection loop")
+                elif only_index:
+                    notes.append(f"{name} starts at {show_val(pv) if isinstance(pv, Aff) else '?'} (outside the domain): if no value of the scan qualifies it is branched on")
     return facts, notes
 
 
@@ -177,17 +188,6 @@ def analyse_heuristic(ctx: Ctx, prog: Program, fn: FuncInfo, label: str) -> int:
         for _, a, b in ivs:
             atoms.extend(a.atoms() + b.atoms())
         facts, notes = _value_range_assumption(it, r, lo, hi, atoms)
-        # a value chosen by scanning the domain (min-cost): the scan must cover [lo, hi] exactly, otherwise a value the contract allows
-        # ('some value of the domain has a positive cost') is never a candidate and the sentinel is branched on
-        for e in r.state.trace:
-            if e.kind == "loop" and e.loop is not None and e.loop.kind == "for" and e.loop.iter_value.__class__.__name__ == "RangeVal":
-                rv_ = e.loop.iter_value
-                chooses = any(isinstance(a, tuple) and a[0] == "lv" and a[2] == e.loop.loop_id for a in atoms)
-                if chooses and not (rv_.start == lo and rv_.stop == hi + ONE and rv_.step == ONE):
-                    ctx.violation("R-PARTITION", fn.path, label, f"selection-range:{where[1]}", where[0],
-                                  f"{label}: the value to branch on is selected by scanning range({show_val(rv_.start)}, {show_val(rv_.stop)}) instead of the whole "
-                                  "domain [lo, hi]: a domain whose only admissible value lies outside the scanned range leaves the 'nothing found' "
-                                  "sentinel, which is then branched on (values outside the domain, duplicated and missing solutions)")
         chain = _chain(ivs, lo, hi, facts)
         desc = ", ".join(f"L{j}=[{show_val(a)}, {show_val(b)}]" for j, a, b in ivs)
         if chain is not None:
@@ -195,17 +195,10 @@ def analyse_heuristic(ctx: Ctx, prog: Program, fn: FuncInfo, label: str) -> int:
                           f"{label}: sub-ranges do not partition [lo, hi]: {chain}; {desc}")
         else:
             ctx.ok("R-PARTITION", f"{inst}:chain", sample={"intervals": desc, "notes": notes})
-        # when the chosen value is known (by the scan, under the contract that an admissible value exists) to lie in [lo, hi], the partition
-        # obligations are decided; the sentinel case itself is the contract's concern
-        sentinel = _sentinel_value_path(it, r, ivs) and not notes
         for j, a, b in ivs:
             dec = facts.decide(cmp_cond("<=", a, b))
             if dec is True:
                 ctx.ok("R-PARTITION", f"{inst}:nonempty:L{j}")
-            elif sentinel:
-                ctx.undecided_site("R-PARTITION", f"{inst}:nonempty:L{j}",
-                                   "path on which the selection loop kept its initial sentinel: contract 'some cost of the "
-                                   "domain is positive' (documented for the min-cost heuristic)")
             else:
                 ctx.violation("R-PARTITION", fn.path, label, f"nonempty:{where[1]}:L{j}", where[0],
                               f"{label}: sub-range at level T+{j} = [{show_val(a)}, {show_val(b)}] is not provably non-empty "
